@@ -347,6 +347,16 @@ def validate(run, case, model, lazy=True, cache=True, tables_from='model') -> Va
             r = send("QUIESCE", at)
             if r.startswith('enabled'):
                 v.disc.append(dict(kind='quiesce_enabled', at=at, detail=f'event loop idle but the model can begin a step of simulator(s) {r.split()[1]}'))
+            snap = l[1] if len(l) > 1 else None
+            if snap and not any(d['kind'] == 'state' for d in v.disc):
+                # state correspondence at quiescent points: progress and the queue of pending steps of every simulator
+                for sid, (prog, nexts) in snap.items():
+                    if sid not in idx: continue
+                    m = model.ask(f"S_EV STATE {idx[sid]}")
+                    mine = ':'.join(map(str, prog)) + ';' + ','.join(':'.join(map(str, t)) for t in nexts)
+                    if m != mine:
+                        v.disc.append(dict(kind='state', at=at, detail=f'{sid}: progress;queue at a quiescent point: model [{m}], implementation [{mine}]'))
+                        break
         elif k == 'DEADLOCK':
             r = send("QUIESCE", at)
             if r.startswith('enabled'):
